@@ -45,13 +45,27 @@ theorem pcr_panics_iff : ∀ prep commit rb c,
 theorem txn_meets_spec : ∀ cond thn rb c, specTxn cond thn rb (txn cond thn rb c) = [] := by decide
 theorem pcr_meets_spec : ∀ prep commit rb c, specPcr prep commit rb (pcr prep commit rb c) = [] := by decide
 
-/-- lifting: for arbitrary step bodies over an arbitrary world, what `Txn` returns and which bodies
-it runs (in which order, with which context and flag) is the table entry for the outcomes the
-bodies produced -/
-theorem lifts_to_arbitrary_bodies {σ : Type} (cond : Body σ) (thn : Option (Body σ)) (rb : Option (Bool → Body σ)) (s : σ) :
-    let t := txn (outcomeOf (cond .txn s).1) (thenOutcome cond thn rb s) (rbOutcome rb) .never
-    (txnM cond thn rb s).1 = t.ret ∧ (txnM cond thn rb s).2.1 = t.calls.map invOf :=
-  txnM_eq_table cond thn rb s
+/-- lifting, for arbitrary step bodies over an arbitrary world and EVERY cancellation point: what `Txn`
+returns and which bodies it runs (order, context kind, flag) is the table entry for the outcomes the
+bodies produced — a body may read its context (`view`) and behave accordingly — and the final world
+is the result of running exactly the bodies in that trace, once each, in order. -/
+theorem lifts_to_arbitrary_bodies {σ : Type} (cond : Body σ) (thn : Option (Body σ)) (rb : Option (Bool → Body σ))
+    (c : Cancel) (s : σ) :
+    let t := txn (outcomeOf (cond .txn (view .txn c) s).1) (thenOutcome cond thn rb c s) (rbOutcome rb) c
+    (txnM cond thn rb c s).1 = t.ret ∧ (txnM cond thn rb c s).2.1 = t.calls.map invOf ∧
+    (txnM cond thn rb c s).2.2 = (txnM cond thn rb c s).2.1.foldl (applyInv cond thn rb c) s :=
+  txnM_eq_table cond thn rb c s
+
+/-- the table's entry/exit observations are what a body sees through its context (`view`) -/
+theorem bodies_observe_view : ∀ cond thn rb c, ∀ k ∈ (txn cond thn rb c).calls,
+    k.cancelledAtEntry = view k.ctx c (entryRank k.step) ∧ k.cancelledAtExit = view k.ctx c (exitRank k.step) :=
+  observed_view
+
+/-- cancellation never changes which steps run or what is returned (only what the steps observe) -/
+theorem cancellation_does_not_change_control_flow : ∀ cond thn rb c,
+    (txn cond thn rb c).calls.map invOf = (txn cond thn rb .never).calls.map invOf ∧
+    (txn cond thn rb c).ret = (txn cond thn rb .never).ret :=
+  trace_independent_of_cancellation
 
 example : (txn .ok (.present .fail) (.present .ok) .duringThen).calls.length = 3 := by decide
 
